@@ -249,8 +249,20 @@ class StandardQTomography(QTomography):
             tmp_prob_dists = (
                 self.calc_matA() @ qope.to_stacked_vector() + self.calc_vecB()
             )
-        prob_dists = tmp_prob_dists.reshape((self.num_schedules, -1))
-        prob_dists = matrix_util.truncate_and_normalize(prob_dists)
+        nums_outcomes = [self.num_outcomes(j) for j in range(self.num_schedules)]
+        if len(set(nums_outcomes)) <= 1:
+            prob_dists = tmp_prob_dists.reshape((self.num_schedules, -1))
+            prob_dists = matrix_util.truncate_and_normalize(prob_dists)
+        else:
+            # the schedules have different numbers of outcomes: one distribution per schedule
+            prob_dists = []
+            offset = 0
+            for num in nums_outcomes:
+                prob_dist = matrix_util.truncate_and_normalize(
+                    tmp_prob_dists[offset : offset + num]
+                )
+                prob_dists.append(prob_dist)
+                offset += num
 
         return prob_dists
 
@@ -412,12 +424,11 @@ class StandardQTomography(QTomography):
 
         matA = self.calc_matA()
         vecB = self.calc_vecB()
-        size_prob_dist = int(len(matA) / self.num_schedules)
-        prob_dist = (
-            matA[size_prob_dist * j : size_prob_dist * (j + 1)] @ var
-            + vecB[size_prob_dist * j : size_prob_dist * (j + 1)]
-        )
-        grad_prob_dist = matA[size_prob_dist * j : size_prob_dist * (j + 1)]
+        # rows of schedule j (the schedules may have different numbers of outcomes)
+        start = sum([self.num_outcomes(index) for index in range(j)])
+        end = start + self.num_outcomes(j)
+        prob_dist = matA[start:end] @ var + vecB[start:end]
+        grad_prob_dist = matA[start:end]
         fisher_matrix = matrix_util.calc_fisher_matrix(prob_dist, grad_prob_dist)
 
         return fisher_matrix
